@@ -29,6 +29,7 @@ impl Runner {
     }
     pub fn case(&mut self, idx: usize, id: &Value, cls: &str, bytes: &[u8], password: &[u8]) {
         std::fs::write(&self.progress, idx.to_string()).ok();
+        if let Ok(mut l) = crate::observe::PANIC_LOG.lock() { l.clear(); }
         let t0 = std::time::Instant::now();
         let mut panics: Vec<Value> = Vec::new();
         let mut ncalls = 0usize;
